@@ -883,18 +883,16 @@ func (t *Tap) datagramsOfClient(ci int) [][]byte {
 	t.mu.Lock()
 	defer t.mu.Unlock()
 	var out [][]byte
-	answered := false
-	for _, ss := range t.sess {
+	// "traffic the server has already accepted": only datagrams of sessions that the
+	// server has answered (a copy that beats its original to the server IS the original)
+	answered := map[string]bool{}
+	for k, ss := range t.sess {
 		if ss.client == ci && ss.udp && ss.nextNew[1] > 0 {
-			answered = true
+			answered[k] = true
 		}
 	}
-	if !answered {
-		// "traffic the server has already accepted": wait until the server has answered
-		return nil
-	}
 	for _, g := range t.geo {
-		if g.Client == ci && g.Dir == 0 && g.Index >= 0 {
+		if g.Client == ci && g.Dir == 0 && g.Index >= 0 && answered[fmt.Sprintf("%s/%d", g.Scope, g.Sess)] {
 			if b, ok := t.wire[fmt.Sprintf("%s/%d/%d", g.Scope, g.Dir, g.Index)]; ok {
 				out = append(out, b)
 			}
